@@ -71,7 +71,12 @@ impl QGramIndex {
         let text = text.into_iter();
         let ranks = RankTransform::new(alphabet);
 
-        let qgram_count = alphabet.len().pow(q);
+        // q-gram codes pack `get_width()` bits per symbol, so they range over 2^(bits * q) values,
+        // which exceeds |alphabet|^q whenever the alphabet size is not a power of two.
+        let bits = ranks.get_width() as u32;
+        let qgram_count = 1usize
+            .checked_shl(bits * q)
+            .expect("Expecting q to be smaller than usize / log2(|A|)");
         let mut address = vec![0; qgram_count + 1];
 
         for qgram in ranks.qgrams(q, text.clone()) {
